@@ -65,7 +65,9 @@ theorem stepOpt_keep (bind : Bind) (strs : List (String × Target)) (oi : OptIte
             unfold lastAction at hl
             split at hl
             · simp at hl
-            · rw [takeAction_keep bind _ _ st1 st2 hl, e1]
+            · split at hl
+              · simp at hl
+              · rw [takeAction_keep bind _ _ st1 st2 hl, e1]
 
 section inv
 variable {bind : Bind} {Go Gp : OptSpec → Prop} {K : List OptSpec → Ns → Prop} (hK : EngInv bind Go Gp K)
@@ -192,6 +194,8 @@ theorem consumeOptX_inv (tg : Target) (htg : TgIn strs tg) (os : String) (ex : O
           | help => simp at hl
           | opt o =>
             dsimp only at hl
+            split at hl
+            · simp at hl
             obtain ⟨b, hb, hns, hps⟩ := takeAction_ns hK o _ st1 st2 hl
             rw [hns, hps]
             exact hK.opt o _ b st1.ps st1.ns (hg o hchain.2) hb hk1
